@@ -389,6 +389,7 @@ func (s *seqSim) noteProbes(op Op, res Res) {
 	r := s.r
 	v := Judge(s.world, op)
 	if res.OK() {
+		r.Count("ok_" + op.Kind.String())
 		if op.Kind == OpRegister {
 			s.admitted++
 		}
@@ -408,6 +409,7 @@ func (s *seqSim) noteProbes(op Op, res Res) {
 	}
 	if v.open && len(v.refuse) == 0 {
 		r.Count("probe_open_case_refused")
+		r.Logf("note: undocumented corner refused (%s) in state %s", res.Err, describe(s.world, op))
 	}
 	expected := false
 	for _, rs := range v.refuse {
